@@ -149,6 +149,8 @@ impl ActTask for Act {
                     return Ok(false);
                 }
                 if t.state().is_skip() {
+                    // the act is skipped as a whole, close the tasks that are still open beneath it
+                    ctx.skip_tasks_beneath(&task)?;
                     task.set_state(TaskState::Skipped);
                     return Ok(true);
                 }
